@@ -55,6 +55,12 @@ def shards(tier):
         for ti in range(len(topos)):
             for ch in sp.chunks(range(len(allk)), per):
                 out.append(("RLC(%d,%d)|ids:%s|kinds:%s|orient:%s" % (n, b, mode, filt, om), (n, b, ti, ch[0], ch[-1] + 1, mode, filt, om)))
+    for (n, b) in [(2, 2), (2, 3), (3, 3), (3, 4)]:
+        topos = sp.topologies(n, b)
+        allk = dyn.kind_tuples(b)
+        for ti in range(len(topos)):
+            for ch in sp.chunks(range(len(allk)), 12):
+                out.append(("physical-unit palette RLC(%d,%d)" % (n, b), ("phys", n, b, ti, ch[0], ch[-1] + 1)))
     for li in range(len(dyn.LADDERS)):
         for nsec in range(1, (4 if tier == "thorough" else 3) + 1):
             out.append(("ladders (up to %d sections, %d states)" % ((4, 8) if tier == "thorough" else (3, 6)), ("lad", li, nsec)))
@@ -63,6 +69,20 @@ def shards(tier):
 
 def run_shard(desc):
     res = new_result()
+    if desc[0] == "phys":
+        _, n, b, ti, k0, k1 = desc
+        topo = sp.topologies(n, b)[ti]
+        for kt in dyn.kind_tuples(b)[k0:k1]:
+            ok, why = dyn.class_non_degenerate(topo, kt, "phys")
+            res["evals"] += 6
+            if not ok:
+                bump(res["skipped"], why, 6)
+                continue
+            for orient in dyn.orientations(b, "two"):
+                for ii, scheme in enumerate(("asc", "desc", "mix")):
+                    d = dyn.build(topo, kt, orient, dyn.ID_SCHEMES[scheme][:b], (orient + ii) % n, pal="phys")
+                    judge(d, res, wpal="poles")
+        return res
     if desc[0] == "lad":
         src, ser, shu = dyn.LADDERS[desc[1]]
         for scheme in ("asc", "desc", "mix"):
@@ -139,14 +159,21 @@ def judge(d, res, wpal=None):
         return
     state_ids = [c[1] for c in caps] + [c[1] for c in inds]
     nontrivial = False
+    cond_max = 1e10
+    if wpal == "poles":
+        wpal = dyn.pole_scaled_frequencies(A)
+        cond_max = 1e13
     for w in (wpal or dyn.W_PALETTE):
         try:
             H, X = tf(A, B, C, D, float(w))
         except np.linalg.LinAlgError:
+            if wpal is not None and wpal is not dyn.W_PALETTE_LONG:
+                bump(res["skipped"], "frequency_on_a_lossless_pole")
+                continue
             add_violation(res, "tf_equals_phasor", dict(case, w=str(w)), "regular jwI-A", "singular", "jwI - A singular although the circuit is regular at jw")
             return
         for k, sid in enumerate(pub):
-            r = dyn.float_response(d, w, sid)
+            r = dyn.float_response(d, w, sid, cond_max)
             if r is None:
                 bump(res["skipped"], "singular_at_jw")
                 continue
